@@ -70,8 +70,8 @@ func emit(out *bufio.Writer, mon *bufio.Writer, id string, s SchedCfg, c *Cluste
 	for k := range c.tainted {
 		taints = append(taints, k)
 	}
-	fmt.Fprintf(mon, "E %s ops=%d calls=%d family=%s nodes=%d tainted=%s heal=%d/%d/%d over=%s\n", id, c.ops, c.seq, s.Family, len(c.ids), strings.Join(taints, ","),
-		c.mon.healRuns, c.mon.healed, c.mon.healRounds, strings.ReplaceAll(c.overrun, " ", "_"))
+	fmt.Fprintf(mon, "E %s ops=%d calls=%d family=%s nodes=%d tainted=%s heal=%d/%d/%d undecided=%d excepted=%d over=%s\n", id, c.ops, c.seq, s.Family, len(c.ids), strings.Join(taints, ","),
+		c.mon.healRuns, c.mon.healed, c.mon.healRounds, c.mon.undecided, c.mon.excepted, strings.ReplaceAll(c.overrun, " ", "_"))
 	var acts []string
 	for k, v := range c.mon.act {
 		acts = append(acts, fmt.Sprintf("%s=%d", k, v))
